@@ -30,10 +30,12 @@ const (
 	MkCancel                         // crosschain.cancelSendToExternal of a pool entry the frame owns
 	MkIncreaseFee                    // crosschain.increaseBridgeFee on a pool entry, paid with msg.value
 	MkRewards                        // staking.delegationRewards (declared read-only) for a delegation that exists
+	MkTokenCB                        // crosschain.crossChain of a registered ERC-20 whose transferFrom calls staking.approveShares
+	MkInnerApprove                   // the approveShares made by that token (never placed in a tree on its own)
 )
 
 func (k MarkerKind) String() string {
-	return [...]string{"approve", "delegate", "xchain", "transferFail", "approveBad", "delegateFail", "bridgeCall", "cancel", "increaseFee", "rewards"}[k]
+	return [...]string{"approve", "delegate", "xchain", "transferFail", "approveBad", "delegateFail", "bridgeCall", "cancel", "increaseFee", "rewards", "tokenCallback", "innerApprove"}[k]
 }
 
 func (k MarkerKind) designedOK() bool {
@@ -58,6 +60,8 @@ type Marker struct {
 	Data   []byte   `json:"-"`
 	Value  *big.Int `json:"-"`
 	Pool   int      `json:"pool"` // cancel / increaseFee: index of the pre-made pool entry
+	Inner  *Marker  `json:"inner"` // tokenCallback: the approveShares its token makes
+	Owner  common.Address // approve kinds: the account whose allowance is written (zero = the frame contract Ctx)
 }
 
 // ---- nodes ----
@@ -234,10 +238,20 @@ func coqPCallBody(m *Marker, executed bool) []string {
 		}
 		return body
 	}
+	if m.Kind == MkTokenCB {
+		// the closure first calls token.transferFrom through the same EVM; the token calls staking.approveShares
+		in := m.Inner
+		inner := fmt.Sprintf("(Frame %s Return false)", coqList([]string{fmt.Sprintf("(Action %s [])",
+			coqList([]string{"(NStep " + coqEff(in.ID, true, false) + ")", fmt.Sprintf("(Log %d)", logBase+in.ID)}))}))
+		tokenFrame := fmt.Sprintf("(Frame %s Return false)", coqList([]string{inner}))
+		body = append(body, fmt.Sprintf("(Action %s [%d])", coqList([]string{tokenFrame, "(NStep " + coqEff(m.ID, true, false) + ")",
+			fmt.Sprintf("(Log %d)", logBase+m.ID)}), m.ID))
+		return body
+	}
 	switch {
 	case m.Kind.designedOK():
 		evs := "[]"
-		if m.Kind != MkApprove {
+		if m.Kind != MkApprove && m.Kind != MkInnerApprove {
 			evs = fmt.Sprintf("[%d]", m.ID)
 		}
 		body = append(body, fmt.Sprintf("(Action %s %s)",
@@ -344,6 +358,27 @@ func tracedFrameCoq(f *TFrame, byInput map[string]*Marker, addrIdx map[common.Ad
 		body := coqPCallBody(m, executed)
 		if f.Typ != vm.CALL && m.Kind != MkRewards { // no value moves to the precompile, nothing runs
 			body = nil
+		}
+		if m.Kind == MkTokenCB && f.Typ == vm.CALL {
+			// what the closure really did through the EVM (traced), then its own native step if it completed
+			var inner []string
+			okAll := true
+			for _, o := range f.Ops {
+				if o.Kind == "frame" {
+					s, ok := tracedFrameCoq(o.Frame, byInput, addrIdx)
+					okAll = okAll && ok
+					// the Go closure does not ignore a failing call: render the call site as uncaught
+					inner = append(inner, strings.TrimSuffix(s, " true)")+" false)")
+				}
+			}
+			if f.Err == "" {
+				inner = append(inner, "(NStep "+coqEff(m.ID, true, false)+")", fmt.Sprintf("(Log %d)", logBase+m.ID))
+				return fmt.Sprintf("(Frame %s Return true)", coqList([]string{fmt.Sprintf("(Action %s [%d])", coqList(inner), m.ID)})), okAll
+			}
+			if len(inner) == 0 {
+				return "(Frame nnil Fail true)", okAll
+			}
+			return fmt.Sprintf("(Frame %s Return true)", coqList([]string{fmt.Sprintf("(Action %s [])", coqList(inner))})), okAll
 		}
 		if f.Err != "" && m.Kind.designedOK() {
 			// failed although designed to succeed (out of gas before Run, or write protection):
